@@ -186,7 +186,13 @@ fn laws_strategy(kind: Kind, max_len: usize) -> impl Strategy<Value = AffCase> {
 	// real-valued transformations for the linear kinds, exactly representable ones for SMM/Vidya
 	let exact = matches!(kind, Kind::SMM | Kind::Vidya);
 	let ab = if exact {
-		(proptest::sample::select(vec![-4.0f64, -2.0, -1.0, -0.5, 0.5, 2.0, 4.0, 8.0]), (-64i32..=64).prop_map(|b| b as f64)).sboxed()
+		// ... and pure changes of unit by large powers of two (exact for every float operation short of underflow):
+		// an absolute threshold anywhere in a nonlinear average shows as a loss of scale equivariance
+		prop_oneof![
+			4 => (proptest::sample::select(vec![-4.0f64, -2.0, -1.0, -0.5, 0.5, 2.0, 4.0, 8.0]), (-64i32..=64).prop_map(|b| b as f64)),
+			1 => (proptest::sample::select(vec![-70i32, -40, 40, 70]), any::<bool>()).prop_map(|(e, neg)| ((2f64).powi(e) * if neg { -1.0 } else { 1.0 }, 0.0)),
+		]
+		.sboxed()
 	} else {
 		((-3i32..=3, 1000u32..10000, any::<bool>()).prop_map(|(e, m, s)| (m as f64 / 1000.0) * 10f64.powi(e) * if s { -1.0 } else { 1.0 }), (-5i32..=5, 0u32..10000, any::<bool>()).prop_map(|(e, m, s)| (m as f64 / 1000.0) * 10f64.powi(e) * if s { -1.0 } else { 1.0 })).sboxed()
 	};
